@@ -5,7 +5,7 @@
      sdk/src/crypto/cose/ocsp.rs   check_stapled_ocsp_response (responder profile with the OCSPSigning EKU, responder trust),
                                    process_ocsp_responses, check_ocsp_status (override / stapled / fetch / supplied)
      sdk/src/claim.rs              check_ocsp_status (fetch policy from settings), verify_claim: `?` on the result
-     sdk/src/store.rs              certificate-status assertions bound to the chain of the claim that carries them
+     sdk/src/store.rs              certificate-status assertions bound to the chain of the manifest whose signer they name
 
    ASN.1 decoding, the hash of the certId, the responder signature check and certificate path building are oracles
    (Section variables).  The responder certificate reuses the certificate record and the EKU gate of Model/Timestamp.v
@@ -147,10 +147,11 @@ Section Oracles.
     let '(ck, l) := from_der_checked r ch st now in
     match ck_certs ck with
     | Some (first :: _) =>
-      match responder_profile first st now with
-      | Some _ => (ck_default, [])
-      | None => if negb (trusted first st) then (ck_default, []) else (ck, l)
-      end
+      if negb (has_ocsp_eku first) then (ck_default, [])           (* has_ocsp_signing_eku (fix b2c9a9e81) *)
+      else match responder_profile first st now with
+           | Some _ => (ck_default, [])
+           | None => if negb (trusted first st) then (ck_default, []) else (ck, l)
+           end
     | _ => (ck_default, [])
     end.
 
@@ -178,7 +179,30 @@ Section Oracles.
     cf_override : bool;                  (* builder.certificate_status_should_override = Some(true) *)
     cf_fetch : bool }.                   (* verify.ocsp_fetch *)
 
-  (* cose::check_ocsp_status.  [fetched]: what the responder named in the certificate returns (None: nothing usable). *)
+  (* what is consulted when nothing is stapled, or the staple did not settle the question *)
+  Definition other_evidence (cf : config) (supplied : list response) (fetched : option response)
+             (ch : option signer_chain) (st : option Z) (now : Z) : status_result * list ocsp_code :=
+    if cf_fetch cf then
+      match fetched with
+      | None => (StatusOk false, [OcInaccessible])
+      | Some r =>
+        (* fetch_and_check_ocsp_response: responder EKU + profile without a time, no trust check, codes logged directly *)
+        let '(ck, l) := from_der_checked r ch st now in
+        match ck_certs ck with
+        | Some (first :: _) =>
+          if negb (has_ocsp_eku first) then (StatusOk false, l)
+          else match responder_profile first None now with
+               | Some _ => (StatusOk false, l)
+               | None => (StatusOk (ck_bound ck), l)
+               end
+        | _ => (StatusOk false, l)
+        end
+      end
+    else process_responses supplied ch st now.
+
+  (* cose::check_ocsp_status.  [fetched]: what the responder named in the certificate returns (None: nothing usable).
+     A stapled response settles the question only when it yields revoked / notRevoked; otherwise the code continues as if
+     nothing had been stapled (fix fb08c71da). *)
   Definition check_ocsp_status (cf : config) (stapled : option response) (supplied : list response) (fetched : option response)
              (ch : option signer_chain) (st : option Z) (now : Z) : status_result * list ocsp_code :=
     match (if cf_override cf then supplied else []) with
@@ -189,36 +213,19 @@ Section Oracles.
         let '(ck, l) := check_response r ch st now in
         match decide ck l with
         | Some d => d
-        | None => (StatusOk false, [])
+        | None => other_evidence cf supplied fetched ch st now
         end
-      | None =>
-        if cf_fetch cf then
-          match fetched with
-          | None => (StatusOk false, [OcInaccessible])
-          | Some r =>
-            (* fetch_and_check_ocsp_response: responder profile without a time, no trust check, codes logged directly *)
-            let '(ck, l) := from_der_checked r ch st now in
-            match ck_certs ck with
-            | Some (first :: _) =>
-              match responder_profile first None now with
-              | Some _ => (StatusOk false, l)
-              | None => (StatusOk (ck_bound ck), l)
-              end
-            | _ => (StatusOk false, l)
-            end
-          end
-        else process_responses supplied ch st now
+      | None => other_evidence cf supplied fetched ch st now
       end
     end.
 
-  (* store.rs (get_claim_referenced_manifests): the responses of a certificate-status assertion are run through
-     from_der_checked against the chain of the claim that *carries* the assertion (no signing time) and filed under the
-     serial of the single response that matched that chain; verify_claim looks the list up by the serial of the claim
-     being verified.  [assertion_supplies carrier r target] = the response reaches the claim whose signer has serial [target]. *)
-  Definition assertion_supplies (carrier : option signer_chain) (r : response) (target : N) (now : Z) : bool :=
-    ASSERTION_BOUND_TO_CARRIER &&
-    ck_bound (fst (from_der_checked r carrier None now)) &&
-    match carrier with Some c => N.eqb (sc_serial c) target | None => false end.
+  (* store.rs (get_claim_referenced_manifests), after fix 0aa703aa5: every response of a certificate-status assertion is run
+     through from_der_checked (no signing time, throw-away log) against the chain of each manifest of the store and filed
+     under the serial of the first one it names, whichever manifest carries the assertion; verify_claim looks the list up
+     by the serial of the claim being verified.  [assertion_supplies chains r target] = the response reaches the claim
+     whose signer has serial [target]. *)
+  Definition assertion_supplies (chains : list signer_chain) (r : response) (target : N) (now : Z) : bool :=
+    existsb (fun c => N.eqb (sc_serial c) target && ck_bound (fst (from_der_checked r (Some c) None now))) chains.
 
   (* verify_claim: `check_ocsp_status(..)?` — an Err aborts the validation of the claim *)
   Definition claim_survives (cf : config) (stapled : option response) (supplied : list response) (fetched : option response)
